@@ -53,11 +53,42 @@ T_CreateIndex == IsEv("CreateIndex") /\ StepOK /\ G' = G /\ Same
 
 \* C01: one execution
 T_Query ==
-    /\ IsEv("Query") /\ "out" \in DOMAIN Ev /\ "pout" \notin DOMAIN Ev
+    /\ IsEv("Query") /\ "out" \in DOMAIN Ev /\ "pouts" \notin DOMAIN Ev
     /\ G' = G
     /\ LET P(D) == Accept(G, Ev.q, Ev.out, Ev.shape \in Supported, D) IN Judge(P)
 
+\* C35: the same query with literal slots as $parameters (one execution per position class that holds a literal).
+\* A parameterised execution may be refused; if it answers, the answer must be one the reference semantics allows
+\* and, when the inlined execution answered and the query has no SKIP/LIMIT freedom, the same bag.
+Windowless(qq) == \A pi \in DOMAIN qq.parts : \A i \in DOMAIN qq.parts[pi].clauses :
+                     LET c == qq.parts[pi].clauses[i] IN c.c \in {"with", "return"} => ~HasWindow(c)
+OutBag(qq, o) == LET R == [i \in DOMAIN o.rows |-> FinalRow(qq, o.rows[i].r)] IN
+                 [x \in Range(R) |-> WSum({i \in DOMAIN R : R[i] = x}, [i \in DOMAIN R |-> o.rows[i].m])]
+T_QueryP ==
+    /\ IsEv("Query") /\ "pouts" \in DOMAIN Ev
+    /\ G' = G
+    /\ LET P(D) == \A i \in DOMAIN Ev.pouts :
+                      LET po == Ev.pouts[i].out IN
+                      \/ po.res = "err"
+                      \/ /\ Answers(G, Ev.q, po, D)
+                         /\ (Ev.out.res = "ok" /\ Windowless(Ev.q)) => OutBag(Ev.q, Ev.out) = OutBag(Ev.q, po)
+       IN Judge(P)
+
+\* C02: one outcome per distinct result over the configuration matrix; cfgs = the configurations that produced it.
+\* On a store holding k disjoint copies of the history a linear query returns every row k times.
+Scaled(o) == IF o.res # "ok" \/ o.copies = 1 THEN o
+             ELSE [o EXCEPT !.rows = [j \in DOMAIN o.rows |-> [r |-> o.rows[j].r, m |-> o.rows[j].m \div o.copies]]]
+ScaleOK(o) == o.res # "ok" \/ \A j \in DOMAIN o.rows : o.rows[j].m % o.copies = 0
+T_QueryC ==
+    /\ IsEv("Query") /\ "outs" \in DOMAIN Ev
+    /\ G' = G
+    /\ LET sup == Ev.shape \in Supported
+           P(D) == \/ \A i \in DOMAIN Ev.outs : Ev.outs[i].out.res = "err" /\ (sup => MayFail(G, Ev.q, D))
+                   \/ \A i \in DOMAIN Ev.outs : ScaleOK(Ev.outs[i].out) /\ Answers(G, Ev.q, Scaled(Ev.outs[i].out), D)
+       IN Judge(P)
+
 TNext == \/ T_Fail \/ T_Reset \/ T_CreateNode \/ T_CreateRel \/ T_DeleteNode \/ T_DeleteRel \/ T_SetNodeProp
-         \/ T_RemoveNodeProp \/ T_SetRelProp \/ T_AddLabel \/ T_RemoveLabel \/ T_Compact \/ T_CreateIndex \/ T_Query
+         \/ T_RemoveNodeProp \/ T_SetRelProp \/ T_AddLabel \/ T_RemoveLabel \/ T_Compact \/ T_CreateIndex
+         \/ T_Query \/ T_QueryP \/ T_QueryC
 TSpec == TInit /\ [][TNext]_tvars
 =============================================================================
